@@ -125,29 +125,34 @@ Definition block_labels_loop_body (labels : list (list Z)) (ds : diags)
     _ <- recover_after_body_item f ;;
     ret (inl (rev labels, ds)).
 
+(* finishParsingBodyBlock, after the open brace: the nested body up to and including its
+   closing brace.  Result: body (None = nil), its diagnostics, the header diagnostics so far *)
+Definition parse_block_content (ds : diags) : M (option pbody * diags * diags) :=
+  p <- peek ;;
+  if (pty p =? TokenNewline) || (pty p =? TokenEOF) || (pty p =? TokenCBrace) then
+    '(b, bds) <- p_body TokenCBrace ;; ret (Some b, bds, ds)
+  else
+    (* Special one-line, single-attribute block parsing mode. *)
+    '(b, bds) <- p_single_attr_body TokenCBrace ;;
+    p <- peek ;;
+    if pty p =? TokenCBrace then _ <- read ;; ret (b, bds, ds)
+    else if pty p =? TokenComma then
+      _ <- recover f TokenCBrace ;; ret (b, bds, ds ++ [D_InvalidSingleArgBlock])
+    else if pty p =? TokenNewline then
+      _ <- recover f TokenCBrace ;; ret (b, bds, ds ++ [D_InvalidSingleArgBlock])
+    else
+      rec <- get_recovery ;;
+      _ <- recover f TokenCBrace ;;
+      ret (b, bds, ds ++ when (negb rec)
+                          (if pty p =? TokenEOF then D_UnclosedBlock else D_InvalidSingleArgBlock)).
+
 Definition finish_parsing_body_block_body (ident : ptok) : M (pitem * diags) :=
   let block_type := pbytes ident in
   r <- labels_self [] [] ;;
   match r with
   | inl (labels, ds) => ret (PBlock block_type labels [], ds)
   | inr (labels, ds) =>
-      p <- peek ;;
-      '(body, body_ds, ds) <-
-        (if (pty p =? TokenNewline) || (pty p =? TokenEOF) || (pty p =? TokenCBrace) then
-           '(b, bds) <- p_body TokenCBrace ;; ret (Some b, bds, ds)
-         else
-           '(b, bds) <- p_single_attr_body TokenCBrace ;;
-           p <- peek ;;
-           if pty p =? TokenCBrace then _ <- read ;; ret (b, bds, ds)
-           else if pty p =? TokenComma then
-             _ <- recover f TokenCBrace ;; ret (b, bds, ds ++ [D_InvalidSingleArgBlock])
-           else if pty p =? TokenNewline then
-             _ <- recover f TokenCBrace ;; ret (b, bds, ds ++ [D_InvalidSingleArgBlock])
-           else
-             rec <- get_recovery ;;
-             _ <- recover f TokenCBrace ;;
-             ret (b, bds, ds ++ when (negb rec)
-                                 (if pty p =? TokenEOF then D_UnclosedBlock else D_InvalidSingleArgBlock))) ;;
+      '(body, body_ds, ds) <- parse_block_content ds ;;
       let ds := ds ++ body_ds in
       eol <- peek ;;
       ds <- (if (pty eol =? TokenNewline) || (pty eol =? TokenEOF) then _ <- read ;; ret ds
